@@ -410,7 +410,11 @@ CLAIMED = {
             'only through class-determined tests (anything else stops the run as an analysis error; a type without its '
             'own branch is followed through ctx.convert into every mpf class the conversion can produce).  mag is '
             'evaluated symbolically: exp+bc+c with c in {0,1} for a normal mpf, max(..)+1 exactly for a complex number '
-            'with two non-zero parts, -inf / +inf for zero / infinities.  ldexp and frexp are exact field rewrites '
+            'with two non-zero parts, -inf / +inf for zero / infinities, nan whenever a component is nan (genuine '
+            'defect repaired: the answer depended on which component was nan).  nint_distance is interpreted on '
+            'every class with a zero or non-finite component (N-R7: ValueError for inf/nan; genuine defect '
+            'repaired); rationals stored without create_reduced keep a positive denominator (N-R8, sign analysis; '
+            'genuine defect repaired).  ldexp and frexp are exact field rewrites '
             '(exponent + n; exponent -bc with e = exp+bc).  The rational and mpf branches of nint_distance are closed-form '
             'integer arithmetic and are evaluated from the source on a grid (N-R6: grid evaluation, not a proof); fp and iv contexts and Python floats (C09) are outside the clause.',
             'Assumes canonical raw values (C01) and reduced rationals; trusts the interpreter in sa/classdom.py.',
